@@ -474,7 +474,7 @@ def rule_units(ctx, R):
             for bi, tt in b.calls():
                 if callee_name(tt["f"], fb) == "std::vec::Vec::push" and vars_.root_key(tt["args"][0]) in [("L", x) for x in tab]:
                     pushes.append(roles.of_operand(tt["args"][1], bi))
-            ok = len(pushes) >= 2 and all(p == IDX for p in pushes)
+            ok = len(pushes) >= 1 and all(p == IDX for p in pushes)
             R.check(ok, "units:last:table", "the command -> block table records, for every pre-executed command, the index of the block it was put in: %s" % pushes, t.where)
         R.check(bool(m), "units:last", "the pending ♡ target is emitted as a block index looked up in the command -> block table, not as the interpreter's command index: %s" % r[:90], t.where)
     # label table
